@@ -31,6 +31,7 @@ Driver (Layer B)
   resolution_equiv F(x, resolution+pixel size) == F(x, round(N0*pix/res) Fourier pixels)
 """
 import os
+import sys
 
 import numpy as np
 
@@ -90,8 +91,16 @@ RARE_SIGMAS = [1e-9, 0.124, 0.125, float(np.nextafter(4.0, 0.0)), 4, 0.2]     # 
 SCALE_EXPS = [-12, -10, -8, -7, -5, -3, 3, 6, 9, 12]                          # grey-value scales 1e-12 .. 1e12
 BOUNDARY_SIZES = [8, 9, 15, 16, 17, 31, 32, 33, 47, 48]                       # 2**k - 1, 2**k, 2**k + 1 and the extremes of 8..48
 PIXTYPES = {"int": int, "np.int64": np.int64, "float": float, "np.int32": np.int32, "np.uint8": np.uint8, "np.float32": np.float32,
-            "np.float64": np.float64}
-NEAR_TIE_EPS = [5e-7, 1e-7, 1e-8, 1e-9]                                       # distance of box*pix/res from a rounding tie k + 1/2
+            "np.float64": np.float64, "0d": np.array, "0d_float": lambda v: np.array(float(v))}
+NEAR_TIE_EPS = [5e-7, 1e-7, 1e-8, 1e-9]
+# round 6: the SHAPE of the inputs - memory layouts / byte order of the map (values equal to the plain C-contiguous native copy),
+# scalar kinds of the numeric arguments, documented default edge widths (docstrings of lowpass / highpass / bandpass)
+LAYOUTS = ["c", "c", "c", "fortran", "swapaxes_view", "negative_strides", "strided_slice", "readonly", "big_endian", "big_endian",
+           "big_endian_fortran", "readonly_fortran"]
+SIGTYPES = ["plain", "plain", "plain", "np.float64", "np.int64", "0d", "np.float32", "negzero"]
+DOC_DEFAULT = {"lowpass": 3, "highpass": 2, "bandpass": (3, 2)}
+ODD_NAMES = ["ribosome.em", "frame.em", "a b [1].mrc", "m\u00fcon_*?.em", "sub dir/\u00fc/x.mrc", "./rel.mrc", "mrc.mrc", "em.em", "x.rec",
+             "stack.mrc.em"]                                       # distance of box*pix/res from a rounding tie k + 1/2
 
 
 def plan(tier):
@@ -113,6 +122,8 @@ def plan(tier):
 
 # ---- the quantifier as predicates ---------------------------------------------------------------
 def _num(v):
+    if isinstance(v, np.ndarray) and v.ndim == 0:
+        v = v[()]
     return isinstance(v, (int, float, np.integer, np.floating)) and not isinstance(v, (bool, np.bool_)) and np.isfinite(v)
 
 
@@ -339,6 +350,7 @@ def setup(ctx):
     from cryocat import cryomap, cryomask
     ctx.cmap = cryomap
     ctx.c12_orig = {}
+    ctx.declare("default_widths")
     ctx.declare("lp_gain", "lp_hard_edge", "lp_soft_edge", "lp_soft_rays", "lp_soft_symmetry", "hp_gain", "hp_complement",
                 "bp_difference", "bp_gain", "res2pix", "filter_radius", "linearity", "shift_commute", "plane_wave", "resolution_equiv")
     o = ctx.c12_orig
@@ -521,7 +533,7 @@ def gen(ctx, i, cls):
         shape = (8, 8, 8)                                   # placeholder: the case consists of sub-configurations, see below
     elif cls == "dtype_smooth":
         shape = _noncubic(rng, big) if rng.random() < 0.5 else (lambda n: (n, n, n))(_size(rng, big))
-        c["kind"] = ["float32", "int16", "positive_offset", "smooth", "whitened", "uint8"][int(rng.integers(0, 6))]
+        c["kind"] = ["float32", "int16", "positive_offset", "smooth", "whitened", "uint8", "int32", "int64", "int8", "delta", "binary01"][int(rng.integers(0, 11))]
         s_lp, s_hp = _sigma(rng, True), _sigma(rng, True)
     n0 = shape[0]
     half = n0 // 2
@@ -592,8 +604,8 @@ def gen(ctx, i, cls):
         if c.get(key) is not None and O.round_half_exact(n0_, c["pix"], c[key])[0] != cut_:
             raise RuntimeError("generator: resolution does not map back to the intended cutoff")
     c.update(shape=tuple(int(v) for v in shape), lp_cut=lp_cut, hp_cut=hp_cut, s_lp=s_lp, s_hp=s_hp)
-    c["pixtype"] = ["int", "int", "int", "np.int64", "float", "np.int32", "np.uint8", "np.float32", "np.float64"][int(rng.integers(0, 9))]
-    c["scale_exp"] = _scale_exp(rng, extreme=(cls == "scale_extremes")) if c["kind"] not in ("int16", "uint8") else 0.0
+    c["pixtype"] = ["int", "int", "int", "np.int64", "float", "np.int32", "np.uint8", "np.float32", "np.float64", "0d", "0d_float"][int(rng.integers(0, 11))]
+    c["scale_exp"] = _scale_exp(rng, extreme=(cls == "scale_extremes")) if c["kind"] not in ("int16", "uint8", "int32", "int64", "int8", "binary01") else 0.0
     c["hom"] = float(rng.choice([-1, 1]) * 10.0 ** float(rng.choice([-12, -8, -7, -5, -3, 3, 7, 11])))
     c["rel_filter"] = FILTERS[int(rng.integers(0, 3))]
     c["roll"] = [int(rng.integers(-60, 61)) if rng.random() < 0.8 else 0 for _ in range(3)]
@@ -601,6 +613,7 @@ def gen(ctx, i, cls):
         c["roll"][int(rng.integers(0, 3))] = int(rng.integers(1, 8))
     c["coef"] = [round(float(rng.uniform(-3, 3)), 3), round(float(rng.uniform(-3, 3)), 3)]
     c["write"] = bool(rng.random() < 0.1)
+    c.update(_shape_of_inputs(rng))
     if cls == "plane_wave":
         ks = []
         k2s = O.kindex(shape)[3]
@@ -626,17 +639,23 @@ def gen(ctx, i, cls):
         c["nontrivial"] = any(k[0] ** 2 + k[1] ** 2 + k[2] ** 2 > cc for k in ks) and any(0 < k[0] ** 2 + k[1] ** 2 + k[2] ** 2 <= cc for k in ks)
     c["summary"] = {k: c.get(k) for k in ("shape", "kind", "lp_cut", "hp_cut", "s_lp", "s_hp", "mode_lp", "mode_hp", "pix", "lp_res", "hp_res",
                                          "defaults", "pix_with_pixels", "pixtype", "tie", "rel_filter", "roll", "coef", "ks", "phases", "amp", "write",
-                                         "scale_exp", "hom")}
+                                         "scale_exp", "hom", "layout", "sigtype", "pix_kind", "check_defaults")}
     if cls == "option_pairs":
         c["subs"] = _option_pair_subs(rng, i, big)
         c["summary"] = {"subs": [sub["summary"] for sub in c["subs"]]}
     return c
 
 
+def _shape_of_inputs(rng):
+    """round-6 fields: map layout, scalar kinds of the width / pixel-size arguments, whether the documented defaults are exercised"""
+    return {"layout": LAYOUTS[int(rng.integers(0, len(LAYOUTS)))], "sigtype": SIGTYPES[int(rng.integers(0, len(SIGTYPES)))],
+            "pix_kind": ["float", "float", "np.float64", "0d"][int(rng.integers(0, 4))], "check_defaults": bool(rng.random() < 0.4)}
+
+
 OPTION_AXES = {"mode_lp": ["pixels", "resolution", "pixels+pix"], "mode_hp": ["pixels", "resolution", "pixels+pix"],
                "sig_lp": ["hard", "soft"], "sig_hp": ["hard", "soft", "default"], "write": [False, True],
-               "kind": ["normal", "float32", "int16", "unit_sum"], "box": ["cubic_even", "cubic_odd", "noncubic"],
-               "pixtype": ["int", "np.int64", "float", "np.float32"], "equal_cuts": [False, False, True], "small_pix": [False, True]}
+               "kind": ["normal", "float32", "int16", "unit_sum", "int32", "delta"], "box": ["cubic_even", "cubic_odd", "noncubic"],
+               "pixtype": ["int", "np.int64", "float", "np.float32", "0d"], "equal_cuts": [False, False, True], "small_pix": [False, True]}
 
 
 def _option_pair_subs(rng, i, big):
@@ -670,8 +689,10 @@ def _option_pair_subs(rng, i, big):
                "defaults": o["sig_hp"] == "default", "pixtype": o["pixtype"], "write": o["write"],
                "rel_filter": FILTERS[int(rng.integers(0, 3))], "roll": [int(rng.integers(-20, 21)) or 1 for _ in range(3)],
                "coef": [round(float(rng.uniform(-3, 3)), 3), round(float(rng.uniform(-3, 3)), 3)],
-               "scale_exp": _scale_exp(rng) if o["kind"] != "int16" else 0.0,
+               "scale_exp": _scale_exp(rng) if o["kind"] not in ("int16", "int32") else 0.0,
                "hom": float(rng.choice([-1, 1]) * 10.0 ** float(rng.choice([-12, -8, -7, -5, -3, 3, 7, 11])))}
+        sub.update(_shape_of_inputs(rng))
+        sub["check_defaults"] = bool(sub["defaults"] or rng.random() < 0.3)
         if sub["defaults"]:
             sub["s_lp"], sub["s_hp"] = 3, 2
         needs_pix = "resolution" in (sub["mode_lp"], sub["mode_hp"]) or "pixels+pix" in (o["mode_lp"], o["mode_hp"])
@@ -680,7 +701,7 @@ def _option_pair_subs(rng, i, big):
         sub["lp_res"] = _res_for(rng, n0, lp_cut, pix) if sub["mode_lp"] == "resolution" else None
         sub["hp_res"] = _res_for(rng, n0, hp_cut, pix) if sub["mode_hp"] == "resolution" else None
         sub["summary"] = {k: sub[k] for k in ("shape", "kind", "lp_cut", "hp_cut", "s_lp", "s_hp", "mode_lp", "mode_hp", "pix", "lp_res", "hp_res",
-                                              "defaults", "pix_with_pixels", "pixtype", "write", "scale_exp")}
+                                              "defaults", "pix_with_pixels", "pixtype", "write", "scale_exp", "layout", "sigtype", "pix_kind", "check_defaults")}
         sub["summary"]["options"] = o
         subs.append(sub)
     return subs
@@ -704,6 +725,16 @@ def make_field(case, rng, shape=None):
         return rng.integers(-3000, 3000, size=shape).astype(np.int16)
     if kind == "uint8":
         return rng.integers(0, 256, size=shape).astype(np.uint8)
+    if kind in ("int32", "int64"):
+        return rng.integers(-10 ** 6, 10 ** 6, size=shape).astype(np.int32 if kind == "int32" else np.int64)
+    if kind == "int8":
+        return rng.integers(-128, 128, size=shape).astype(np.int8)
+    if kind == "binary01":                                  # a mask-like map: a single distinct non-zero value
+        return (rng.random(shape) < 0.3).astype(np.uint8) + (0 if rng.random() < 0.9 else 0)
+    if kind == "delta":                                     # one non-zero voxel: every Fourier component has the same amplitude
+        d = np.zeros(shape)
+        d[tuple(int(rng.integers(0, n)) for n in shape)] = float(rng.uniform(0.5, 5.0)) * sc
+        return d
     if kind == "positive_offset":
         return (rng.uniform(0, 1, size=shape) + float(rng.uniform(1, 50))) * sc
     if kind == "unit_sum":                                  # a density normalised to unit sum: values ~ 1/N^3 ~ 1e-3 .. 1e-5
@@ -721,8 +752,70 @@ def _pix(case, v):
     return PIXTYPES[case["pixtype"]](v)
 
 
-def kwargs_for(case, which, pixels_only=False):
-    """keyword arguments for one of the three real filters, as this case specifies its cutoffs"""
+def relayout(x, layout):
+    """the same map (np.array_equal with x) in another memory layout / byte order; "c" = a fresh C-contiguous native copy"""
+    x = np.array(x, copy=True)
+    if "big_endian" in layout and x.dtype.byteorder in "=<" and x.dtype.itemsize > 1 and sys.byteorder == "little":
+        x = x.astype(x.dtype.newbyteorder(">"))
+    if "fortran" in layout:
+        x = np.asfortranarray(x)
+    if layout == "swapaxes_view":
+        x = np.swapaxes(np.ascontiguousarray(np.swapaxes(x, 1, 2)), 1, 2)
+    elif layout == "negative_strides":
+        x = np.ascontiguousarray(x[::-1, :, ::-1])[::-1, :, ::-1]
+    elif layout == "strided_slice":
+        b = np.zeros(x.shape[:2] + (2 * x.shape[2],), dtype=x.dtype)
+        b[:, :, ::2] = x
+        x = b[:, :, ::2]
+    if "readonly" in layout:
+        x.flags.writeable = False
+    return x
+
+
+def _sig(case, v):
+    """the width in the scalar kind this case uses (same value)"""
+    t = case.get("sigtype", "plain")
+    if t == "np.float64":
+        return np.float64(v)
+    if t == "np.int64" and float(v) == int(v):
+        return np.int64(int(v))
+    if t == "0d":
+        return np.array(v)
+    if t == "np.float32" and float(np.float32(v)) == float(v):
+        return np.float32(v)
+    if t == "negzero" and v == 0:
+        return -0.0
+    return v
+
+
+def _pixsz(case, v):
+    if v is None:
+        return None
+    k = case.get("pix_kind", "float")
+    return np.float64(v) if k == "np.float64" else np.array(v) if k == "0d" else v
+
+
+def kwargs_for(case, which, pixels_only=False, widths="case"):
+    """keyword arguments for one of the three real filters, as this case specifies its cutoffs;
+    widths: "case" (as the case says), "omitted", "explicit_default" (the documented defaults passed explicitly)"""
+    kw = _kwargs_for(case, which, pixels_only)
+    if "pixel_size" in kw:
+        kw["pixel_size"] = _pixsz(case, kw["pixel_size"])
+    for g in ("gaussian", "lp_gaussian", "hp_gaussian"):
+        if g in kw:
+            kw[g] = _sig(case, kw[g])
+    if widths != "case":
+        for g in ("gaussian", "lp_gaussian", "hp_gaussian"):
+            kw.pop(g, None)
+        if widths == "explicit_default":
+            if which == "bandpass":
+                kw["lp_gaussian"], kw["hp_gaussian"] = DOC_DEFAULT["bandpass"]
+            else:
+                kw["gaussian"] = DOC_DEFAULT[which]
+    return kw
+
+
+def _kwargs_for(case, which, pixels_only=False):
     if which == "bandpass":
         kw = {}
         if case["mode_lp"] == "pixels" or pixels_only:
@@ -780,7 +873,7 @@ def drive_cutoff_rule(ctx, case, aux_stream=2):
         ctx.call("get_filter_radius", cm.get_filter_radius, edge_size=n0, fourier_pixels=_pix(case, cut), target_resolution=None,
                  pixel_size=None)
         ctx.call("get_filter_radius", cm.get_filter_radius, edge_size=n0, fourier_pixels=_pix(case, cut), target_resolution=None,
-                 pixel_size=pix)
+                 pixel_size=_pixsz(case, pix))
         ctx.call("get_filter_radius", cm.get_filter_radius, edge_size=n0, fourier_pixels=None, target_resolution=res, pixel_size=pix)
         ok, got = ctx.call("resolution2pixels", cm.resolution2pixels, resolution=res, edge_size=n0, pixel_size=pix,
                            print_out=bool(case["i"] % 2))
@@ -814,22 +907,62 @@ def run_config(ctx, case, rng, aux_stream=2):
             "map_scale": float(np.abs(x).max())}
     fns = {"lowpass": cm.lowpass, "highpass": cm.highpass, "bandpass": cm.bandpass}
     out = {}
-    for which in FILTERS:
+    lay = case.get("layout", "c")
+    info["layout"] = lay
+    for n_f, which in enumerate(FILTERS):
         kw = kwargs_for(case, which)
         path = None
         if case["write"]:
-            path = os.path.join(ctx.scratch, "c12_%d_%s.em" % (case["i"], which))
+            # odd but legal output names (stems ending in the letters of the extension, spaces, [ ] * ?, non-ASCII, sub-directory,
+            # relative to the scratch cwd): the returned array is what is judged
+            name = ODD_NAMES[(case["i"] + case.get("sub", 0) + n_f) % len(ODD_NAMES)]
+            path = name if name.startswith("./") else os.path.join(ctx.scratch, name)
+            if os.path.dirname(path):
+                os.makedirs(os.path.dirname(path), exist_ok=True)
             kw["output_name"] = path
-        ok, y = ctx.call(which, fns[which], np.array(x, copy=True), **kw)
-        if path is not None and os.path.exists(path):
-            os.remove(path)
+        ok, y = ctx.call(which, fns[which], relayout(x, lay), **kw)
+        if path is not None:
+            if ok and not os.path.exists(path):
+                ctx.check("completes:" + which, False, {"clause": "output_name given but no file written", "output_name": path})
+            if os.path.exists(path):
+                os.remove(path)
         if ok and isinstance(y, np.ndarray) and y.shape == x.shape:
             out[which] = y
+    # edge widths OMITTED == the documented defaults passed explicitly (lowpass 3, highpass 2, bandpass 3 / 2); the explicit call is
+    # judged against the oracle by the call monitors, so an omitted width that resolves to anything else is seen here
+    if case.get("check_defaults"):
+        scale0 = float(np.abs(x).max())
+        tol0 = 1e-12 if f64 else 1e-6
+        for which in ([case["rel_filter"], "bandpass"] if case["cls"] != "option_pairs" else FILTERS):
+            oka, ya = ctx.call(which, fns[which], relayout(x, lay), **kwargs_for(case, which, widths="omitted"))
+            okb, yb = ctx.call(which, fns[which], relayout(x, "c"), **kwargs_for(case, which, widths="explicit_default"))
+            if oka and okb:
+                _close(ctx, "default_widths", ya, np.asarray(yb, dtype=np.float64), scale0,
+                       dict(info, filter=which, clause="widths omitted != documented defaults %r passed explicitly" % (DOC_DEFAULT[which],)), tol=tol0)
+        # bandpass with only ONE width passed: the other one must be its documented default
+        for given, other, d_other in (("lp_gaussian", "hp_gaussian", DOC_DEFAULT["bandpass"][1]), ("hp_gaussian", "lp_gaussian", DOC_DEFAULT["bandpass"][0])):
+            kw0 = kwargs_for(case, "bandpass", widths="omitted")
+            sv = case["s_lp"] if given == "lp_gaussian" else case["s_hp"]
+            oka, ya = ctx.call("bandpass", cm.bandpass, relayout(x, lay), **dict(kw0, **{given: _sig(case, sv)}))
+            # (the passed width goes in the same scalar kind in both calls: a np.float32 width makes skimage build its kernel in single
+            #  precision, a 1e-8 difference in the transition zone that the property does not speak about)
+            okb, yb = ctx.call("bandpass", cm.bandpass, relayout(x, "c"), **dict(kw0, **{given: _sig(case, sv), other: d_other}))
+            if oka and okb:
+                _close(ctx, "default_widths", ya, np.asarray(yb, dtype=np.float64), scale0,
+                       dict(info, filter="bandpass", clause="%s omitted != documented default %r" % (other, d_other), given={given: sv}), tol=tol0)
+    # a map that is zero everywhere stays zero (linearity; the call monitors cannot read a gain off it)
+    if case["i"] % 3 == 0:
+        which0 = case["rel_filter"]
+        okz, yz = ctx.call(which0, fns[which0], relayout(np.zeros(case["shape"], dtype=x.dtype), lay), **kwargs_for(case, which0))
+        if okz:
+            good = isinstance(yz, np.ndarray) and yz.shape == x.shape and bool(np.all(yz == 0))
+            ctx.check("linearity", good, None if good else dict(info, filter=which0, clause="filter(0) != 0",
+                                                              max_abs=float(np.abs(yz).max()) if isinstance(yz, np.ndarray) else None))
     # cutoffs given as resolution + pixel size are the same filters as round(N0*pix/res) Fourier pixels
     for which in FILTERS:
         if which in out and "resolution" in ([case["mode_lp"]] if which == "lowpass" else [case["mode_hp"]] if which == "highpass"
                                              else [case["mode_lp"], case["mode_hp"]]):
-            ok, y2 = ctx.call(which + "(pixels)", fns[which], np.array(x, copy=True), **kwargs_for(case, which, pixels_only=True))
+            ok, y2 = ctx.call(which + "(pixels)", fns[which], relayout(x, lay), **kwargs_for(case, which, pixels_only=True))
             if ok:
                 _close(ctx, "resolution_equiv", out[which], y2, float(np.abs(x).max()), dict(info, filter=which, pix=case["pix"],
                        lp_res=case.get("lp_res"), hp_res=case.get("hp_res")), tol=1e-12 if f64 else 1e-6)
@@ -841,8 +974,8 @@ def run_config(ctx, case, rng, aux_stream=2):
     xs = np.asarray(x, dtype=np.float64)
     a, b = case["coef"]
     x2 = make_field(dict(case, kind="normal"), rng)
-    ok2, y2 = ctx.call(which, fn, np.array(x2, copy=True), **kw)
-    ok3, y3 = ctx.call(which, fn, a * xs + b * x2, **kw)
+    ok2, y2 = ctx.call(which, fn, relayout(x2, lay), **kw)
+    ok3, y3 = ctx.call(which, fn, relayout(a * xs + b * x2, lay), **kw)
     scale = abs(a) * float(np.abs(xs).max()) + abs(b) * float(np.abs(x2).max())
     tol = 1e-9 if f64 else 1e-5
     if ok2 and ok3:
@@ -853,7 +986,7 @@ def run_config(ctx, case, rng, aux_stream=2):
         _close(ctx, "linearity", y5, h * np.asarray(out[which], dtype=np.float64), abs(h) * float(np.abs(xs).max()),
                dict(info, filter=which, clause="homogeneity filter(h*x) == h*filter(x)", h=h), tol=tol)
     s = case["roll"]
-    ok4, y4 = ctx.call(which, fn, np.roll(x, s, axis=(0, 1, 2)), **kw)
+    ok4, y4 = ctx.call(which, fn, relayout(np.roll(x, s, axis=(0, 1, 2)), lay), **kw)
     if ok4:
         _close(ctx, "shift_commute", y4, np.roll(out[which], s, axis=(0, 1, 2)), float(np.abs(xs).max()), dict(info, filter=which, roll=s), tol=tol)
     if case["cls"] == "pixels_plus_small_pixel_size":
@@ -898,6 +1031,14 @@ def run_history(ctx, case, rng):
         okc, yc = ctx.call(which, fn, a2.copy(), **kw)
         if okc:
             _close(ctx, "linearity", y3, np.asarray(yc, dtype=np.float64), float(np.abs(a2).max()), dict(info, step=3, clause="same content, same result"))
+    # the very object one filter returned is fed to the next one, then modified in place and fed again (judged like fresh inputs)
+    okl, yl = ctx.call("lowpass", cm.lowpass, a0.copy(), **kwargs_for(case, "lowpass"))
+    if okl and isinstance(yl, np.ndarray) and in_domain_map(yl):
+        okh, yh = ctx.call("highpass", cm.highpass, yl, **kwargs_for(case, "highpass"))
+        yl *= -3.0
+        okb, yb = ctx.call("bandpass", cm.bandpass, yl, **kwargs_for(case, "bandpass"))
+        if okh and isinstance(yh, np.ndarray) and in_domain_map(yh):
+            ctx.call("lowpass", cm.lowpass, yh.T.copy().T if yh.ndim == 3 else yh, **kwargs_for(case, "lowpass"))
     # another filter on the same (again modified) array
     A[...] = np.roll(A, case["roll"], axis=(0, 1, 2))
     other = FILTERS[(FILTERS.index(which) + 1) % 3]
